@@ -1,5 +1,404 @@
 package main
 
+import (
+	"encoding/json"
+	"fmt"
+	"os"
+	"path/filepath"
+	"sort"
+	"strconv"
+	"strings"
+	"time"
+
+	"golang.org/x/tools/go/ssa"
+)
+
+// PropInfo is the static description of a property check (from /verif/props.json).
+type PropInfo struct {
+	Title     string   `json:"title"`
+	DesignRef string   `json:"design_ref"`
+	Undecided []string `json:"undecided"`
+	Bounded   []string `json:"bounded"`
+	DependsOn []string `json:"depends_on"`
+	Sweeps    []string `json:"sweeps"`
+}
+
+type KnownFinding struct {
+	Property   string `json:"property"`
+	Obligation string `json:"obligation"`
+	What       string `json:"what"`
+	Witness    string `json:"witness"`
+}
+
+type KnownFile struct {
+	Findings []KnownFinding `json:"findings"`
+	Fixed    []string       `json:"fixed"`
+}
+
+type oblRecord struct {
+	Name    string  `json:"name"`
+	Kind    string  `json:"kind"`
+	Func    string  `json:"function"`
+	Reading string  `json:"reading"`
+	Result  string  `json:"result"`
+	Solver  string  `json:"solver"`
+	Seconds float64 `json:"seconds"`
+	Clause  string  `json:"clause,omitempty"`
+}
+
+func loadJSON(path string, v interface{}) error {
+	data, err := os.ReadFile(path)
+	if err != nil {
+		return err
+	}
+	return json.Unmarshal(data, v)
+}
+
+// contractMentions reports whether the contract has any clause labelled for the property (or a counts directive).
+func contractMentions(c *Contract, prop string) bool {
+	for _, n := range c.Notes {
+		if n == "counts "+prop || strings.HasPrefix(n, "counts ") && containsWord(n, prop) {
+			return true
+		}
+	}
+	for _, cl := range c.Requires {
+		if hasPropLabel(cl.Labels, prop) {
+			return true
+		}
+	}
+	for _, cl := range c.Ensures {
+		if hasPropLabel(cl.Labels, prop) {
+			return true
+		}
+	}
+	for _, l := range c.Loops {
+		for _, cl := range l.Invariants {
+			if hasPropLabel(cl.Labels, prop) {
+				return true
+			}
+		}
+	}
+	for _, ac := range c.AtCalls {
+		if hasPropLabel(ac.Clause.Labels, prop) {
+			return true
+		}
+	}
+	return false
+}
+
+func containsWord(s, w string) bool {
+	for _, f := range strings.Fields(s) {
+		if f == w {
+			return true
+		}
+	}
+	return false
+}
+
 func runCheck(eng *Engine, args []string, tier string, timeout, par int) int {
+	if len(args) != 1 {
+		fmt.Fprintln(os.Stderr, "usage: govc check [flags] <property-id>")
+		return 2
+	}
+	prop := args[0]
+	start := time.Now()
+	seed, _ := strconv.Atoi(os.Getenv("VERIF_SEED"))
+	props := map[string]PropInfo{}
+	loadJSON(filepath.Join(eng.verif, "props.json"), &props)
+	info := props[prop]
+	var known KnownFile
+	loadJSON(filepath.Join(eng.verif, "known_findings.json"), &known)
+
+	// 1. functions under contract for this property
+	type job struct {
+		fn  *ssa.Function
+		con *Contract
+	}
+	var jobs []job
+	var keys []string
+	for k := range eng.cs.ByFunc {
+		keys = append(keys, k)
+	}
+	sort.Strings(keys)
+	var missing []string
+	for _, k := range keys {
+		for _, c := range eng.cs.ByFunc[k] {
+			if c.Inline || c.Trusted || !contractMentions(c, prop) {
+				continue
+			}
+			fn := eng.findFunc(c.Pkg, c.Func)
+			if fn == nil {
+				if strings.HasPrefix(c.File, eng.repo) {
+					missing = append(missing, c.Key())
+				}
+				continue
+			}
+			jobs = append(jobs, job{fn, c})
+		}
+	}
+	var all []*Obl
+	var funcs []string
+	assum := map[string]bool{}
+	assumedElsewhere := map[string]bool{}
+	genStart := time.Now()
+	type vres struct {
+		vc  *VC
+		idx int
+	}
+	results := make([]*VC, len(jobs))
+	sem := make(chan struct{}, 1) // generation is sequential: the engine's maps are not synchronised
+	for i, j := range jobs {
+		sem <- struct{}{}
+		results[i] = eng.verifyFunc(j.fn, j.con)
+		<-sem
+	}
+	for i, j := range jobs {
+		vc := results[i]
+		funcs = append(funcs, fmt.Sprintf("%s [%s]", j.fn.String(), vc.mode))
+		n := 0
+		for _, o := range vc.obls {
+			if o.Tier == "thorough" && tier != "thorough" {
+				continue
+			}
+			switch o.Kind {
+			case "ensures", "inv-entry", "inv-preserved", "at-call", "decreases":
+				if !clauseCountsFor(o.Labels, prop) {
+					continue
+				}
+			}
+			if j.con.Timeout > 0 {
+				o.Timeout = j.con.Timeout
+			}
+			all = append(all, o)
+			n++
+		}
+		if n == 0 {
+			all = append(all, &Obl{Name: vc.oblName("vacuity", "no-obligations"), Kind: "subset", Failed: "function under contract generated no obligation", vc: vc, Func: j.fn.String()})
+		}
+		for a := range vc.assum {
+			assum[a] = true
+		}
+		for k := range vc.calleesUsed {
+			assumedElsewhere[k] = true
+		}
+	}
+	for _, m := range missing {
+		all = append(all, &Obl{Name: "contract/" + m + "/function-missing", Kind: "subset", Failed: "contract refers to a function that no longer exists", Func: m})
+	}
+	// 2. spec-only lemmas
+	lemmas, lerr := eng.loadLemmas(prop, tier)
+	if lerr != nil {
+		fmt.Fprintln(os.Stderr, "lemmas:", lerr)
+	}
+	all = append(all, lemmas...)
+	// 3. structural sweeps
+	sweepObls, sweepAssum := eng.runSweeps(prop, info)
+	all = append(all, sweepObls...)
+	for _, a := range sweepAssum {
+		assum[a] = true
+	}
+	genSecs := time.Since(genStart).Seconds()
+
+	outDir := filepath.Join(eng.outBase(), "out", "smt", prop)
+	os.RemoveAll(outDir)
+	os.MkdirAll(outDir, 0o755)
+	var solverObls []*Obl
+	for _, o := range all {
+		if o.Result == "" {
+			solverObls = append(solverObls, o)
+		}
+	}
+	dischargeAll(solverObls, outDir, timeout, par)
+
+	// 4. verdicts
+	replayDir := filepath.Join(eng.outBase(), "replays", prop)
+	os.RemoveAll(replayDir)
+	nObl, nOK, nVac := 0, 0, 0
+	var recs []oblRecord
+	var violations []string
+	var knownHit []string
+	solverTime := 0.0
+	var samples []map[string]string
+	for _, o := range all {
+		solverTime += o.Seconds
+		rec := oblRecord{Name: o.Name, Kind: o.Kind, Func: o.Func, Reading: o.Mode.String(), Result: o.Result, Solver: o.Solver, Seconds: round3(o.Seconds), Clause: o.Clause}
+		if o.Kind == "vacuity" {
+			nVac++
+			if !o.ok() {
+				violations = append(violations, writeReplay(eng, replayDir, prop, o, "vacuous precondition"))
+			}
+			recs = append(recs, rec)
+			continue
+		}
+		if o.ok() {
+			nObl++
+			nOK++
+			if len(samples) < 5 && o.SMTFile != "" && (o.Kind == "ensures" || o.Kind == "lemma") {
+				if text, err := os.ReadFile(o.SMTFile); err == nil {
+					samples = append(samples, map[string]string{"obligation": o.Name, "clause": o.Clause, "smtlib_tail": tailGoal(string(text))})
+				}
+			}
+			recs = append(recs, rec)
+			continue
+		}
+		// failed: known finding?
+		isKnown := false
+		for _, kf := range known.Findings {
+			if kf.Property == prop && kf.Obligation == o.Name {
+				isKnown = true
+				knownHit = append(knownHit, fmt.Sprintf("KNOWN-FINDING: property=%s %s [%s]", prop, kf.What, kf.Obligation))
+			}
+		}
+		rec.Result = o.Result
+		recs = append(recs, rec)
+		if isKnown {
+			continue
+		}
+		nObl++
+		violations = append(violations, writeReplay(eng, replayDir, prop, o, ""))
+	}
+	if nObl == 0 && len(violations) == 0 {
+		violations = append(violations, fmt.Sprintf("VIOLATION property=%s replay=%s no-failing-input-found", prop, writeNote(replayDir, "no-obligations.json", "the check generated no obligation: nothing was verified")))
+	}
+	// 5. output
+	sort.Strings(knownHit)
+	for _, k := range knownHit {
+		fmt.Println(k)
+	}
+	for _, v := range violations {
+		fmt.Println(v)
+	}
+	var as []string
+	for a := range assum {
+		as = append(as, a)
+	}
+	as = append(as, "go/types + go/ssa (x/tools v0.29.0) lower Go correctly; z3 / cvc5 are sound; the VC generator itself (guarded by selftest mutants and vacuity checks)",
+		"composition by induction over the call history / decode loop: argued in DESIGN section 5.6, not machine-checked",
+		"distinct pointer parameters of one function do not alias (checked syntactically at every call site inside the verified functions)",
+		"slice lengths, capacities and offsets are below 2^47 (amd64 address space)")
+	for _, s := range eng.cs.Scan {
+		as = append(as, "contract scan: "+s)
+	}
+	var ae []string
+	for k := range assumedElsewhere {
+		ae = append(ae, k)
+	}
+	sort.Strings(ae)
+	sort.Strings(as)
+	wall := time.Since(start).Seconds() + eng.loadSecs
+	if len(samples) == 0 {
+		for _, o := range all {
+			if o.ok() && len(samples) < 5 {
+				samples = append(samples, map[string]string{"obligation": o.Name, "clause": o.Clause})
+			}
+		}
+	}
+	ev := map[string]interface{}{
+		"property_id": prop,
+		"tier":        tier,
+		"seed":        seed,
+		"level":       "proof",
+		"wall_s":      round3(wall),
+		"violations":  len(violations),
+		"assumptions": as,
+		"coverage": map[string]interface{}{
+			"obligations":              nObl,
+			"discharged":               nOK,
+			"checker_cmd":              fmt.Sprintf("/verif/bin/govc check --tier %s %s  (VCs: /verif/out/smt/%s/*.smt2; solvers raced per obligation: z3-new 5.1.0, z3 4.8.12, cvc5 1.0.3; %ds limit)", tier, prop, timeout),
+			"trusted_base":             trustedBase(as),
+			"functions_under_contract": funcs,
+			"callee_contracts_assumed": ae,
+			"per_obligation":           recs,
+			"vacuity_checks":           nVac,
+			"undecided":                info.Undecided,
+			"bounded":                  info.Bounded,
+			"depends_on":               info.DependsOn,
+			"known_findings":           knownHit,
+			"samples":                  samples,
+			"solver_time_s":            round3(solverTime),
+			"generation_time_s":        round3(genSecs),
+			"load_time_s":              round3(eng.loadSecs),
+			"explanation":              "every obligation is a verification condition generated from the go/ssa form of /repo's current working tree and the //@ contracts in <pkg>/zz_contracts_verif.go; 'discharged' counts obligations some solver answered unsat; undecided and bounded items are never counted",
+		},
+	}
+	os.MkdirAll(filepath.Join(eng.outBase(), "evidence"), 0o755)
+	data, _ := json.MarshalIndent(ev, "", " ")
+	os.WriteFile(filepath.Join(eng.outBase(), "evidence", prop+".json"), data, 0o644)
+	fmt.Printf("property %s tier=%s: %d obligations, %d discharged, %d violations, %d known findings, %d vacuity checks, %.1fs\n", prop, tier, nObl, nOK, len(violations), len(knownHit), nVac, wall)
+	if len(violations) > 0 {
+		return 1
+	}
 	return 0
+}
+
+func trustedBase(as []string) []string {
+	out := []string{"govc VC generator (this task)", "go/ssa + go/types (x/tools v0.29.0)", "z3 4.8.12 / z3 5.1.0 / cvc5 1.0.3", "spec library /verif/spec (transcribed from spec/iconvg-spec-v0.md; checked against the document's worked examples)"}
+	for _, a := range as {
+		if strings.HasPrefix(a, "trusted") || strings.HasPrefix(a, "external") || strings.HasPrefix(a, "model of") || strings.HasPrefix(a, "interface contract") {
+			out = append(out, a)
+		}
+	}
+	return out
+}
+
+func round3(f float64) float64 { return float64(int(f*1000+0.5)) / 1000 }
+
+func tailGoal(text string) string {
+	i := strings.LastIndex(text, "; ---- goal")
+	if i < 0 {
+		return ""
+	}
+	t := text[i:]
+	if len(t) > 1500 {
+		t = t[:1500] + "..."
+	}
+	return t
+}
+
+func writeNote(dir, name, msg string) string {
+	os.MkdirAll(dir, 0o755)
+	p := filepath.Join(dir, name)
+	data, _ := json.MarshalIndent(map[string]string{"note": msg}, "", " ")
+	os.WriteFile(p, data, 0o644)
+	return p
+}
+
+// writeReplay writes the replay file of a failed obligation and returns the VIOLATION line.
+func writeReplay(eng *Engine, dir, prop string, o *Obl, note string) string {
+	os.MkdirAll(dir, 0o755)
+	path := filepath.Join(dir, sanitizeFile(o.Name)+".json")
+	rep := map[string]interface{}{
+		"property":      prop,
+		"obligation":    o.Name,
+		"kind":          o.Kind,
+		"function":      o.Func,
+		"clause":        o.Clause,
+		"position":      o.Pos.String(),
+		"solver_result": o.Result,
+		"solver":        o.Solver,
+		"solver_output": o.Output,
+		"smt_file":      o.SMTFile,
+		"note":          note,
+	}
+	if o.Failed != "" {
+		rep["generation_failure"] = o.Failed
+	}
+	confirmed := false
+	if o.Result == "sat" && o.Model != "" {
+		rep["model_excerpt"] = firstLines(o.Model, 400)
+		if r := eng.replay(o); r != nil {
+			rep["replay"] = r
+			if c, ok := r["confirmed"].(bool); ok && c {
+				confirmed = true
+			}
+		}
+	}
+	data, _ := json.MarshalIndent(rep, "", " ")
+	os.WriteFile(path, data, 0o644)
+	fmt.Printf("failed obligation: %s (%s) %s\n", o.Name, o.Result, o.Clause)
+	line := fmt.Sprintf("VIOLATION property=%s replay=%s", prop, path)
+	if !confirmed {
+		line += " no-failing-input-found"
+	}
+	return line
 }
